@@ -70,18 +70,49 @@ func runC20(c *Ctx, idx int) {
 		}
 		var sb strings.Builder
 		sb.WriteString("<" + tag + " " + a + ">")
-		for k := 0; k < 1+r.Intn(4); k++ {
+		wrap := func(x string) string {
 			if tag == "ul" {
-				sb.WriteString("<li>" + tc.toks(5+r.Intn(60)) + "</li>")
-			} else {
-				sb.WriteString("<p>" + tc.toks(5+r.Intn(80)) + "</p>")
-				if r.Intn(6) == 0 {
-					sb.WriteString(img())
+				return "<li>" + x + "</li>"
+			}
+			return x
+		}
+		switch r.Intn(6) {
+		case 0: // only media: adds no words at all
+			sb.WriteString(wrap(img()))
+		case 1: // a data table: its cells are not counted as words of text blocks
+			sb.WriteString(wrap(`<table role="grid"><tr><th>` + tc.tok() + `</th><th>` + tc.tok() + `</th></tr><tr><td>` + tc.tok() + `</td><td>` + tc.tok() + `</td></tr></table>`))
+		case 2: // an embed
+			nimg++
+			sb.WriteString(wrap(fmt.Sprintf(`<iframe src="https://www.youtube.com/embed/vid%d"></iframe>`, nimg)))
+		default:
+			for k := 0; k < 1+r.Intn(4); k++ {
+				if tag == "ul" {
+					sb.WriteString("<li>" + tc.toks(5+r.Intn(60)) + "</li>")
+				} else {
+					sb.WriteString("<p>" + tc.toks(5+r.Intn(80)) + "</p>")
+					if r.Intn(6) == 0 {
+						sb.WriteString(img())
+					}
 				}
 			}
 		}
 		sb.WriteString("</" + tag + ">")
 		return sb.String()
+	}
+	// decoy: an element that carries a marker string but is exempt from the
+	// unlikely test (an anchor, or anything inside a table); it is the same in
+	// all three variants.
+	decoy := func() string {
+		m := c20Markers[r.Intn(len(c20Markers))]
+		at := []string{"class", "id"}[r.Intn(2)]
+		switch r.Intn(3) {
+		case 0:
+			return `<p>` + tc.toks(12+r.Intn(20)) + ` <a ` + at + `="` + m + `" href="/x/` + tc.tok() + `">` + tc.toks(2) + `</a> ` + tc.toks(10) + `</p>`
+		case 1:
+			return `<table role="presentation"><tr><td ` + at + `="` + m + `"><p>` + tc.toks(30+r.Intn(30)) + `</p></td></tr></table>`
+		default:
+			return `<table summary="s"><tr><th>` + tc.tok() + `</th><th ` + at + `="` + m + `">` + tc.tok() + `</th></tr><tr><td>` + tc.tok() + `</td><td><span ` + at + `="` + m + `">` + tc.tok() + `</span></td></tr></table>`
+		}
 	}
 	// target amount of remaining content
 	target := 250 + r.Intn(501)
@@ -90,6 +121,10 @@ func runC20(c *Ctx, idx int) {
 	}
 	words := 0
 	placement := ""
+	if r.Intn(4) == 0 {
+		parts = append(parts, decoy())
+		placement += "decoy,"
+	}
 	if r.Intn(3) == 0 {
 		parts = append(parts, marked())
 		placement += "top,"
@@ -98,6 +133,9 @@ func runC20(c *Ctx, idx int) {
 		if r.Intn(4) == 0 {
 			parts = append(parts, marked())
 			placement += "mid,"
+		} else if r.Intn(12) == 0 {
+			parts = append(parts, decoy())
+			placement += "decoy,"
 		} else {
 			n := 10 + r.Intn(90)
 			if words+n > target-40 {
